@@ -405,7 +405,8 @@ impl BitMask {
                 if msb - lsb == 63 {
                     i64::MAX
                 } else {
-                    (1 << (msb - lsb + 1)) - 1
+                    // Compute in `u64`: `(1_i64 << 63) - 1` overflows for a 63 bits wide field.
+                    ((1_u64 << (msb - lsb + 1)) - 1) as i64
                 }
             }
         }
@@ -419,7 +420,8 @@ impl BitMask {
         if msb - lsb == 63 {
             -1
         } else {
-            ((1 << (msb - lsb + 1)) - 1) << lsb
+            // Compute in `u64`: `(1_i64 << 63) - 1` overflows for a 63 bits wide field.
+            (((1_u64 << (msb - lsb + 1)) - 1) << lsb) as i64
         }
     }
 }
